@@ -6,7 +6,8 @@ LEVEL = "model_checking"
 
 def run(ctx):
   return _shared.run_clauses(ctx, "C31.", lambda e: e['k'] == 'B' and e['tag'] == 'ua',
-                             "every reply: direct flags parallel to stored actions (further C31 clauses in Trace_Doc)")
+                             "every reply: direct flags parallel to stored actions (further C31 clauses in Trace_Doc)",
+                             corpora=_shared.BOTH)
 
 
 def replay(ctx, data):
